@@ -39,6 +39,8 @@ void yk_assert_at(bool c, std::uint32_t line) {
 }
 void yk_on_sleep(unsigned n) __attribute__((weak));
 static unsigned g_sleeps = 0;
+extern "C" void yk_native_sched_add(unsigned t, unsigned len, unsigned fin);
+static void yk_gate(int kind);
 static const void* g_watch = nullptr;
 static std::uint32_t g_wst = 0, g_wld = 0;
 void yk_watch(const void* p) { g_watch = p; g_wst = 0; g_wld = 0; }
@@ -53,6 +55,7 @@ void yakushima_verif_hook(int kind, const void* addr) {
         ++g_sleeps;
         if (yk_on_sleep != nullptr) yk_on_sleep(g_sleeps);
     }
+    yk_gate(kind);
 }
 struct ev_rec { std::uint32_t kind; const void* ptr; std::uint64_t tag; };
 static ev_rec g_ev[64];
@@ -112,6 +115,84 @@ void operator delete[](void* p, std::size_t, std::align_val_t) noexcept { yk_fre
 extern "C" std::int64_t yk_live_allocs(void) { return g_live; }
 extern "C" int yk_is_live(const void*) { return 1; } // not observable natively; ASan builds catch use-after-free instead
 
+// ---- kind S replay: the thread entries run in REAL threads; every guarded hook is a gate that follows the schedule
+// the solver found (thread per context, number of hooks passed in the context, whether the thread finished in it).
+#include <pthread.h>
+#include <condition_variable>
+#include <mutex>
+namespace {
+struct ctx_rec { unsigned t, len, fin; };
+std::vector<ctx_rec> g_sched;
+void (*g_thr_fn[8])() = {};
+unsigned g_nthr = 0;
+std::mutex g_mu;
+std::condition_variable g_cv;
+std::size_t g_ctx = 0;          // current context index
+unsigned g_left = 0;            // hooks left in the current context
+bool g_thr_done[8] = {};
+bool g_free_run = false;        // schedule exhausted: remaining threads run freely (recorded as a divergence)
+thread_local int tl_me = -1;
+unsigned g_fin_ctx[8] = {};
+
+bool my_turn(int me) { return g_free_run || (g_ctx < g_sched.size() && (int) g_sched[g_ctx].t == me); }
+void next_ctx_locked() {
+    ++g_ctx;
+    // skip contexts of threads that already finished (cannot happen for a faithful schedule)
+    while (g_ctx < g_sched.size() && g_thr_done[g_sched[g_ctx].t]) ++g_ctx;
+    if (g_ctx >= g_sched.size()) g_free_run = true;
+    else g_left = g_sched[g_ctx].len;
+    g_cv.notify_all();
+}
+void* thr_main(void* arg) {
+    int me = (int) (long) arg;
+    tl_me = me;
+    {
+        std::unique_lock<std::mutex> lk(g_mu);
+        g_cv.wait(lk, [me] { return my_turn(me); });
+    }
+    g_thr_fn[me]();
+    {
+        std::unique_lock<std::mutex> lk(g_mu);
+        g_thr_done[me] = true;
+        g_fin_ctx[me] = (unsigned) g_ctx;
+        if (!g_free_run) next_ctx_locked();
+        else g_cv.notify_all();
+    }
+    return nullptr;
+}
+void sched_gate(int kind) {
+    int me = tl_me;
+    if (me < 0 || g_free_run) {
+        if (me >= 0 && (kind == 2 || kind == 3 || kind == 4)) sched_yield();
+        return;
+    }
+    std::unique_lock<std::mutex> lk(g_mu);
+    if (g_ctx >= g_sched.size() || (int) g_sched[g_ctx].t != me) return; // divergence: not gated any more
+    if (g_left > 0) --g_left;
+    if (g_left == 0 && !g_sched[g_ctx].fin) {
+        next_ctx_locked();
+        g_cv.wait(lk, [me] { return my_turn(me); });
+    }
+}
+} // namespace
+extern "C" void yk_native_sched_add(unsigned t, unsigned len, unsigned fin) { g_sched.push_back(ctx_rec{t, len, fin}); }
+extern "C" void yk_thread(std::uint32_t i, void (*fn)()) {
+    if (i < 8) {
+        g_thr_fn[i] = fn;
+        if (i + 1 > g_nthr) g_nthr = i + 1;
+    }
+}
+extern "C" std::uint32_t yk_thread_done(std::uint32_t i) { return i < 8 && g_thr_done[i] ? 1 : 0; }
+extern "C" std::uint32_t yk_ctx_of_finish(std::uint32_t i) { return i < 8 ? g_fin_ctx[i] : 0; }
+extern "C" void yk_run_threads(std::uint32_t) {
+    pthread_t th[8];
+    g_ctx = 0;
+    g_free_run = g_sched.empty();
+    if (!g_sched.empty()) g_left = g_sched[0].len;
+    for (unsigned i = 0; i < g_nthr; ++i) pthread_create(&th[i], nullptr, thr_main, (void*) (long) i);
+    for (unsigned i = 0; i < g_nthr; ++i) pthread_join(th[i], nullptr);
+}
+
 // ---- thread model of the symbolic runs, natively: std::thread start records the thread, join() runs its body to
 // completion on the joining thread (DESIGN 2.3).  The definitions below interpose libstdc++'s exported members, so the
 // replay of a kind-N counterexample is single-threaded and deterministic, exactly as CBMC explored it.
@@ -136,6 +217,8 @@ void thread::join() {
 }
 } // namespace std
 
+static void yk_gate(int kind) { sched_gate(kind); }
+
 int main(int argc, char** argv) {
     if (argc < 3) {
         std::fprintf(stderr, "usage: %s <harness> <inputs-file>\n", argv[0]);
@@ -143,8 +226,20 @@ int main(int argc, char** argv) {
     }
     FILE* f = std::fopen(argv[2], "r");
     if (f == nullptr) return 2;
-    unsigned long long v = 0;
-    while (std::fscanf(f, "%llu", &v) == 1) g_in.push_back(v);
+    char tag[8];
+    while (std::fscanf(f, "%7s", tag) == 1) {
+        if (tag[0] == 'I') {
+            unsigned long long v = 0;
+            if (std::fscanf(f, "%llu", &v) != 1) break;
+            g_in.push_back(v);
+        } else if (tag[0] == 'S') {
+            unsigned t = 0, len = 0, fin = 0;
+            if (std::fscanf(f, "%u %u %u", &t, &len, &fin) != 3) break;
+            yk_native_sched_add(t, len, fin);
+        } else {
+            break;
+        }
+    }
     std::fclose(f);
     void* sym = dlsym(RTLD_DEFAULT, argv[1]);
     if (sym == nullptr) {
